@@ -384,3 +384,68 @@ def c17(tier, seed):
                            "set_main_sched_on_terminated_stream", "set_main_sched_on_own_stream", "concurrent_ops",
                            "concurrent_refused_duplicate"]
     return c
+
+
+ALLOCWRAP_LD = ("-Wl,--wrap=malloc,--wrap=calloc,--wrap=realloc,--wrap=posix_memalign,--wrap=free,--wrap=mmap,"
+                "--wrap=munmap,--wrap=pthread_create,--wrap=pthread_mutex_init,--wrap=pthread_cond_init,"
+                "--wrap=pthread_barrier_init",)
+
+MEM_ENVS = [
+    {},
+    {"ABT_STACK_OVERFLOW_CHECK": "mprotect"},
+    {"ABT_STACK_OVERFLOW_CHECK": "mprotect_strict", "ABT_MEM_MAX_NUM_STACKS": "2"},
+    {"ABT_MEM_LP_ALLOC": "malloc", "ABT_MEM_MAX_NUM_STACKS": "4", "ABT_MEM_MAX_NUM_DESCS": "2"},
+    {"ABT_MEM_LP_ALLOC": "thp", "ABT_MEM_STACK_PAGE_SIZE": "262144", "ABT_MEM_PAGE_SIZE": "4096"},
+    {"ABT_MEM_LP_ALLOC": "mmap_hp_thp", "ABT_THREAD_STACKSIZE": "16448", "ABT_MEM_MAX_NUM_STACKS": "16"},
+    {"ABT_MEM_LP_ALLOC": "mmap_rp", "ABT_THREAD_STACKSIZE": "100000", "ABT_MEM_MAX_NUM_STACKS": "16",
+     "ABT_MEM_MAX_NUM_DESCS": "16"},
+    {"ABT_MEM_LP_ALLOC": "mmap_hp_rp", "ABT_MEM_STACK_PAGE_SIZE": "8388608", "ABT_MEM_PAGE_SIZE": "8388608",
+     "ABT_MEM_MAX_NUM_STACKS": "1024"},
+    {"ABT_STACK_OVERFLOW_CHECK": "mprotect", "ABT_MEM_LP_ALLOC": "malloc", "ABT_THREAD_STACKSIZE": "32768",
+     "ABT_MEM_MAX_NUM_DESCS": "4"},
+]
+
+
+@prop("C15")
+def c15(tier, seed):
+    c = Check("C15", tier, seed)
+    q = tier == "quick"
+    c.rule = ("alloc case = one white-box scenario: a global memory pool (element 64 B..16 KiB, header offset, page 4 KiB..8 MiB, "
+              "1..512 headers per bucket, mmap/memalign/malloc pages) with 1-8 local pools each driven by its own OS thread "
+              "doing random alloc/free/hand-over in grow/shrink/churn phases; stacks case = one runtime lifetime under one "
+              "memory-pool environment (bucket sizes, page sizes, large-page modes, stack-guard modes, default stack size): "
+              "8-96 ULTs with default, arbitrary (4 KiB..16 MiB, +-1/8/63/64/4095) and user-supplied stacks (every 8-byte "
+              "offset) created and freed from ULTs on several streams and from external threads; non-trivial alloc = buckets "
+              "moved between local and global pool (MEMPOOL_TAKE/RETURN_BUCKET); distinct = distinct (variant, environment, "
+              "scenario signature)")
+    c.assumptions = ["with the mprotect stack guard the lowest two pages of a stack are not usable and are not touched",
+                     "a ULT's own frames need at most 16 KiB (x3 under ASan) on top of the region it fills with its pattern"]
+    common = dict(extra_sources=("allocwrap.c",), ldflags=ALLOCWRAP_LD)
+    for i, s in enumerate(seeds(seed, 4 if q else 32)):
+        c.add(Run("h_mem", "mon", ["--seed", s, "--mode", "alloc", "--scenarios", 8 if q else 30, "--ops", 20000 if q else 120000,
+                                   "--delay", ["off", hammer("LIFO_PUSH_BEFORE_CAS", "LIFO_POP_BEFORE_CAS"), "uniform", "heavy"][i % 4],
+                                   "--watchdog", 60 if q else 600], weight=8, tag="alloc%d" % i, **common))
+    c.add(Run("h_mem", "asan", ["--seed", seed + 11, "--mode", "alloc", "--scenarios", 5, "--ops", 6000, "--watchdog", 120],
+              weight=8, tag="alloc-asan", **common))
+    c.add(Run("h_mem", "tsan", ["--seed", seed + 12, "--mode", "alloc", "--scenarios", 3, "--ops", 3000,
+                                "--delay", hammer("LIFO_PUSH_BEFORE_CAS", "LIFO_POP_BEFORE_CAS"), "--watchdog", 120],
+              weight=8, tag="alloc-tsan", **common))
+    reps = 1 if q else 6
+    k = 0
+    for rep in range(reps):
+        for j, env in enumerate(MEM_ENVS):
+            s = seeds(seed, 1, salt=100 + k)[0]
+            k += 1
+            c.add(Run("h_mem", "mon", ["--seed", s, "--mode", "stacks", "--scenarios", 5 if q else 12,
+                                       "--watchdog", 60 if q else 300], env=env, weight=4, tag="stacks%d.%d" % (rep, j), **common))
+    for j, env in enumerate(MEM_ENVS[:3] if q else MEM_ENVS):
+        c.add(Run("h_mem", "asan", ["--seed", seed + 20 + j, "--mode", "stacks", "--scenarios", 3, "--watchdog", 120],
+                  env=env, weight=4, tag="stacks-asan%d" % j, **common))
+    c.nontrivial = lambda r: has_cov(r, "MEMPOOL_TAKE_BUCKET", "MEMPOOL_RETURN_BUCKET")
+    c.required_points = ["MEMPOOL_TAKE_BUCKET", "MEMPOOL_RETURN_BUCKET", "MEMPOOL_NEW_PAGE", "MEMPOOL_PARTIAL_MERGE",
+                         "MEMPOOL_PARTIAL_COMPLETE", "LIFO_CAS_RETRY"]
+    c.required_counters = ["blocks_allocated", "blocks_freed_by_other_thread", "ults_default_stack", "ults_sized_stack",
+                           "ults_user_stack", "stack_sizes_not_multiple_of_64", "ults_created_by_external_thread",
+                           "ults_freed_by_other_kind_of_context", "stack_bytes_written_and_verified",
+                           "live_pairs_checked_disjoint"]
+    return c
